@@ -65,8 +65,8 @@ def enum_consts(fn_list):
 
 def case_stmts(fn, value, param_name=None):
     for b, j, st in fn.cfg.stmts():
-        gf = guard_facts(fn, b, st)
-        if any(f[0] == 'case' and value in f[2] for f in gf):
+        gf = with_case_facts(fn, guard_facts(fn, b, st))
+        if any(f[0] == 'case' and value in f[2] and strip(f[1]).get('id') == fn.params[1]['id'] for f in gf):       # the controller number parameter
             yield b, j, st, expand_locals(fn, gf)       # `const bool pedalDown = (value >= 64); if(!pedalDown)` reads as `value < 64`
 
 
